@@ -144,7 +144,19 @@ func (m *Msg) Encode(tpl func(id uint16) *Template) ([]byte, SetOffsets) {
 		b = put32(b, m.Domain)
 	}
 	count := 0
-	for _, s := range m.Sets {
+	// templates announced earlier in this message take precedence, in order
+	local := map[uint16]*Template{}
+	resolve := func(id uint16) *Template {
+		if t, ok := local[id]; ok {
+			return t
+		}
+		if tpl == nil {
+			return nil
+		}
+		return tpl(id)
+	}
+	for si := range m.Sets {
+		s := m.Sets[si]
 		start := len(b)
 		offs.Start = append(offs.Start, start)
 		var id uint16
@@ -196,7 +208,7 @@ func (m *Msg) Encode(tpl func(id uint16) *Template) ([]byte, SetOffsets) {
 			}
 		case SetData:
 			id = s.TplID
-			t := tpl(s.TplID)
+			t := resolve(s.TplID)
 			for i := range s.Recs {
 				if t != nil {
 					body = encRecord(body, t, &s.Recs[i], ipfix)
@@ -210,6 +222,11 @@ func (m *Msg) Encode(tpl func(id uint16) *Template) ([]byte, SetOffsets) {
 		case SetRaw:
 			id = s.RawID
 			body = append(body, s.RawBody...)
+		}
+		if s.Kind == SetTemplate || s.Kind == SetOptions {
+			for ti := range m.Sets[si].Tpls {
+				local[m.Sets[si].Tpls[ti].ID] = &m.Sets[si].Tpls[ti]
+			}
 		}
 		for i := 0; i < s.Pad; i++ {
 			body = append(body, 0)
